@@ -20,7 +20,7 @@ pub fn decode_3ds(c: &mut Case, f: Fmt, w: usize, h: usize, payload: &[u8], tag:
     let img = texcont::ctpk(&[t], &mut Rng::new(1), false).bytes;
     let what = format!("ctpk::read ({} {}x{} {})", f.name(), w, h, tag);
     let img_t = crate::monitor::tight(&img);
-    match c.lib(&what, || ctpk::read(&img_t).map_err(|e| e.to_string())) {
+    match c.lib_stable_by(&what, || ctpk::read(&img_t).map_err(|e| e.to_string()), super::c20::same_textures) {
         None => {
             digest(c, tag, b"panic");
             None
@@ -99,7 +99,7 @@ fn check_etc(c: &mut Case, alpha: bool, w: usize, h: usize, payload: &[u8], tag:
     // and through the public mila::decode
     let what = format!("mila::decode ({} {}x{} {})", f.name(), w, h, tag);
     let payload_t = crate::monitor::tight(payload);
-    match c.lib(&what, || mila::decode(&payload_t, w, h, alpha).map_err(|e| e.to_string())) {
+    match c.lib_stable(&what, || mila::decode(&payload_t, w, h, alpha).map_err(|e| e.to_string())) {
         None => digest(c, &format!("{}:direct", tag), b"panic"),
         Some(Err(e)) => c.fail("decode_err", "decode_err:etc1_direct", format!("{}: Err({})", what, e)),
         Some(Ok(px)) => {
@@ -317,7 +317,7 @@ pub fn run(cx: &mut Ctx) {
         for v in &vals {
             p.extend_from_slice(&v.to_be_bytes());
         }
-        match c.lib("ColorFormat::RGB5A3.decode", || ColorFormat::RGB5A3.decode(&crate::monitor::tight(&p)).map_err(|e| e.to_string())) {
+        match c.lib_stable("ColorFormat::RGB5A3.decode", || ColorFormat::RGB5A3.decode(&crate::monitor::tight(&p)).map_err(|e| e.to_string())) {
             None => digest(c, "rgb5a3", b"panic"),
             Some(Err(e)) => c.fail("decode_err", "decode_err:rgb5a3", format!("ColorFormat::RGB5A3.decode returned Err({})", e)),
             Some(Ok(px)) => {
@@ -350,7 +350,7 @@ pub fn run(cx: &mut Ctx) {
             for v in &vals {
                 p.extend_from_slice(&v.to_be_bytes());
             }
-            match c.lib("ColorFormat::RGB5A3.decode", || ColorFormat::RGB5A3.decode(&crate::monitor::tight(&p)).map_err(|e| e.to_string())) {
+            match c.lib_stable("ColorFormat::RGB5A3.decode", || ColorFormat::RGB5A3.decode(&crate::monitor::tight(&p)).map_err(|e| e.to_string())) {
                 None => {}
                 Some(Err(e)) => c.fail("decode_err", "decode_err:rgb5a3", format!("ColorFormat::RGB5A3.decode of {} values returned Err({})", n, e)),
                 Some(Ok(px)) => {
@@ -513,7 +513,7 @@ fn check_ci8(c: &mut Case, w: usize, h: usize, rng: &mut Rng) {
     let img = texcont::tpl(&[t], rng, false).bytes;
     let what = format!("Tpl::extract_textures (CI8 {}x{}, {} colours)", w, h, npal);
     let img_t = crate::monitor::tight(&img);
-    match c.lib(&what, || Tpl::extract_textures(&img_t).map_err(|e| e.to_string())) {
+    match c.lib_stable_by(&what, || Tpl::extract_textures(&img_t).map_err(|e| e.to_string()), super::c20::same_textures) {
         None => digest(c, &format!("ci8:{}x{}", w, h), b"panic"),
         Some(Err(e)) => c.fail("decode_err", "decode_err:ci8", format!("{}: Err({})", what, e)),
         Some(Ok(v)) => {
